@@ -324,3 +324,663 @@ Example insert_sorted_ex :
   insert (mkM [2] 7 KDel []) [mkM [1] 4 KVal [9]; mkM [2] 9 KVal [1]; mkM [2] 7 KVal [2]; mkM [3] 1 KVal []]
   = [mkM [1] 4 KVal [9]; mkM [2] 9 KVal [1]; mkM [2] 7 KDel []; mkM [2] 7 KVal [2]; mkM [3] 1 KVal []].
 Proof. vm_compute. reflexivity. Qed.
+
+(* ------------------------------------------------------------------------------------- *)
+(* A3. find on a built table = latest_version                                             *)
+(* ------------------------------------------------------------------------------------- *)
+
+(* the table after inserting es (oldest first) into the empty skip list *)
+Definition build_from (l0 : list mentry) (es : list mentry) : list mentry :=
+  fold_left (fun l e => insert e l) es l0.
+Definition build (es : list mentry) : list mentry := build_from [] es.
+
+(* specification: among the entries of es with key k the one with the greatest sequence
+   number; among several with that greatest number the one inserted last. Written as a
+   left-to-right scan: a later entry replaces the candidate unless its number is smaller. *)
+Definition pick (k : bytes) (acc : option mentry) (e : mentry) : option mentry :=
+  if beq (mk e) k then
+    match acc with
+    | None => Some e
+    | Some c => if mseq e <? mseq c then Some c else Some e
+    end
+  else acc.
+
+Definition latest_version (k : bytes) (es : list mentry) : option mentry :=
+  fold_left (pick k) es None.
+
+Lemma latest_version_snoc : forall k es e,
+  latest_version k (es ++ [e]) = pick k (latest_version k es) e.
+Proof. intros k es e. unfold latest_version. rewrite fold_left_app. reflexivity. Qed.
+
+(* declarative reading of latest_version: a position in es, nothing with key k before it
+   has a larger number, everything with key k after it has a strictly smaller one *)
+Definition is_latest (k : bytes) (es : list mentry) (e : mentry) : Prop :=
+  exists l1 l2, es = l1 ++ e :: l2 /\ mk e = k /\
+    (forall x, In x l1 -> mk x = k -> mseq x <= mseq e) /\
+    (forall x, In x l2 -> mk x = k -> mseq x < mseq e).
+
+Lemma latest_version_spec : forall k es,
+  match latest_version k es with
+  | None => forall x, In x es -> mk x <> k
+  | Some e => is_latest k es e
+  end.
+Proof.
+  intros k es. induction es as [|e es IH] using rev_ind.
+  - cbn. intros x [].
+  - rewrite latest_version_snoc. unfold pick.
+    destruct (beq (mk e) k) eqn:B.
+    + apply beq_true_iff in B.
+      destruct (latest_version k es) as [c|].
+      * destruct IH as (l1 & l2 & Hes & Hk & Hb & Ha).
+        destruct (mseq e <? mseq c) eqn:L.
+        -- apply N.ltb_lt in L. exists l1, (l2 ++ [e]). split; [|split; [exact Hk|split; [exact Hb|]]].
+           ++ rewrite Hes, <- app_assoc. reflexivity.
+           ++ intros x Hx Kx. apply in_app_or in Hx. destruct Hx as [Hx|[Hx|[]]]; [auto|].
+              subst x. exact L.
+        -- apply N.ltb_ge in L. exists es, []. split; [reflexivity|split; [exact B|split]].
+           ++ intros x Hx Kx. rewrite Hes in Hx. apply in_app_or in Hx.
+              destruct Hx as [Hx|[Hx|Hx]].
+              ** specialize (Hb x Hx Kx). lia.
+              ** subst x. exact L.
+              ** specialize (Ha x Hx Kx). lia.
+           ++ intros x [].
+      * exists es, []. split; [reflexivity|split; [exact B|split]].
+        -- intros x Hx Kx. exfalso. exact (IH x Hx Kx).
+        -- intros x [].
+    + apply beq_false_iff in B. destruct (latest_version k es) as [c|].
+      * destruct IH as (l1 & l2 & Hes & Hk & Hb & Ha).
+        exists l1, (l2 ++ [e]). split; [|split; [exact Hk|split; [exact Hb|]]].
+        -- rewrite Hes, <- app_assoc. reflexivity.
+        -- intros x Hx Kx. apply in_app_or in Hx. destruct Hx as [Hx|[Hx|[]]]; [auto|].
+           subst x. contradiction.
+      * intros x Hx. apply in_app_or in Hx. destruct Hx as [Hx|[Hx|[]]]; [auto|].
+        subst x. exact B.
+Qed.
+
+(* is_latest determines the entry and its position *)
+Lemma is_latest_unique : forall k es e e', is_latest k es e -> is_latest k es e' -> e = e'.
+Proof.
+  intros k es e e' (l1 & l2 & H1 & K1 & B1 & A1) (l1' & l2' & H2 & K2 & B2 & A2).
+  subst es.
+  assert (Hcase : forall (a b : list mentry) x y c d, a ++ x :: b = c ++ y :: d ->
+            (a = c /\ x = y /\ b = d) \/ (exists m, c = a ++ x :: m /\ b = m ++ y :: d) \/
+            (exists m, a = c ++ y :: m /\ d = m ++ x :: b)).
+  { clear. induction a as [|a0 a IH]; intros b x y c d H.
+    - destruct c as [|c0 c]; cbn in H.
+      + injection H as E1 E2. subst. left. auto.
+      + injection H as E1 E2. subst. right; left. exists c. auto.
+    - destruct c as [|c0 c]; cbn in H.
+      + injection H as E1 E2. subst. right; right. exists a. auto.
+      + injection H as E1 H. subst c0. destruct (IH _ _ _ _ _ H) as [(-> & -> & ->)|[(m & -> & ->)|(m & -> & ->)]].
+        * left. auto.
+        * right; left. exists m. auto.
+        * right; right. exists m. auto. }
+  destruct (Hcase _ _ _ _ _ _ H2) as [(_ & E & _)|[(m & -> & ->)|(m & -> & ->)]].
+  - exact E.
+  - (* e' lies after e *)
+    assert (Ha : mseq e' < mseq e) by (apply A1; [apply in_or_app; right; left; reflexivity|exact K2]).
+    assert (Hb : mseq e <= mseq e') by (apply B2; [apply in_or_app; right; left; reflexivity|exact K1]).
+    lia.
+  - assert (Ha : mseq e < mseq e') by (apply A2; [apply in_or_app; right; left; reflexivity|exact K1]).
+    assert (Hb : mseq e' <= mseq e) by (apply B1; [apply in_or_app; right; left; reflexivity|exact K2]).
+    lia.
+Qed.
+
+Theorem latest_version_some_iff : forall k es e,
+  latest_version k es = Some e <-> is_latest k es e.
+Proof.
+  intros k es e. pose proof (latest_version_spec k es) as S. split.
+  - intros H. rewrite H in S. exact S.
+  - intros H. destruct (latest_version k es) as [c|].
+    + f_equal. eapply is_latest_unique; eauto.
+    + destruct H as (l1 & l2 & -> & K & _). exfalso.
+      apply (S e); [apply in_or_app; right; left; reflexivity|exact K].
+Qed.
+
+Theorem latest_version_none_iff : forall k es,
+  latest_version k es = None <-> (forall x, In x es -> mk x <> k).
+Proof.
+  intros k es. pose proof (latest_version_spec k es) as S. split.
+  - intros H. rewrite H in S. exact S.
+  - intros H. destruct (latest_version k es) as [c|]; [|reflexivity].
+    destruct S as (l1 & l2 & -> & K & _). exfalso.
+    apply (H c); [apply in_or_app; right; left; reflexivity|exact K].
+Qed.
+
+(* first entry with key k *)
+Fixpoint first_key (k : bytes) (l : list mentry) : option mentry :=
+  match l with
+  | [] => None
+  | x :: r => if beq (mk x) k then Some x else first_key k r
+  end.
+
+Lemma best_of_run_head : forall k x r,
+  mk x = k -> Forall (ele x) r -> best_of_run k x r = x.
+Proof.
+  intros k x r Kx. induction r as [|y r IH]; intros Hf; cbn [best_of_run]; [reflexivity|].
+  inversion Hf as [|a b Hy Hr]; subst a b.
+  destruct (beq (mk y) k) eqn:B; [|reflexivity].
+  apply beq_true_iff in B.
+  assert (L : mseq x <? mseq y = false).
+  { apply N.ltb_ge. apply ele_iff in Hy. destruct Hy as [Hy|[_ Hy]]; [|exact Hy].
+    rewrite Kx, B in Hy. exfalso. eapply bcmp_lt_irrefl; eauto. }
+  rewrite L. apply IH. exact Hr.
+Qed.
+
+Lemma first_key_none_gt : forall k x r,
+  bcmp (mk x) k = Gt -> Forall (ele x) r -> first_key k r = None.
+Proof.
+  intros k x r G. apply bcmp_gt_lt in G. induction r as [|y r IH]; intros Hf; [reflexivity|].
+  inversion Hf as [|a b Hy Hr]; subst a b. cbn [first_key].
+  destruct (beq (mk y) k) eqn:B; [|apply IH; exact Hr].
+  apply beq_true_iff in B. apply ele_iff in Hy. exfalso. destruct Hy as [Hy|[Hy _]].
+  - rewrite B in Hy. eapply bcmp_lt_asym; eauto.
+  - rewrite Hy, B in G. eapply bcmp_lt_irrefl; eauto.
+Qed.
+
+(* on a sorted list SkipList.Find returns the first entry carrying the key *)
+Lemma find_sorted : forall k l, sorted l -> find k l = first_key k l.
+Proof.
+  intros k l. induction l as [|x r IH]; intros Hs; [reflexivity|].
+  apply sorted_cons_inv in Hs. destruct Hs as [Hs Hf].
+  cbn [find first_key]. unfold beq. destruct (bcmp (mk x) k) eqn:C.
+  - f_equal. apply best_of_run_head; [apply bcmp_eq; exact C|exact Hf].
+  - apply IH. exact Hs.
+  - symmetry. eapply first_key_none_gt; eauto.
+Qed.
+
+Lemma first_key_insert : forall k e l, sorted l ->
+  first_key k (insert e l) = pick k (first_key k l) e.
+Proof.
+  intros k e l. unfold pick. destruct (beq (mk e) k) eqn:Be.
+  - apply beq_true_iff in Be. induction l as [|x r IH]; intros Hs.
+    + cbn [insert first_key]. rewrite Be, beq_refl. reflexivity.
+    + apply sorted_cons_inv in Hs. destruct Hs as [Hs Hf].
+      cbn [insert]. destruct (elt x e) eqn:E.
+      * cbn [first_key]. destruct (beq (mk x) k) eqn:Bx.
+        -- apply beq_true_iff in Bx. apply elt_true_iff in E. destruct E as [E|[_ E]].
+           ++ rewrite Bx, Be in E. exfalso. eapply bcmp_lt_irrefl; eauto.
+           ++ apply N.ltb_lt in E. rewrite E. reflexivity.
+        -- apply IH. exact Hs.
+      * cbn [first_key]. rewrite Be, beq_refl.
+        destruct (beq (mk x) k) eqn:Bx.
+        -- apply beq_true_iff in Bx. apply elt_false_iff in E. destruct E as [E|[_ E]].
+           ++ rewrite Bx, Be in E. exfalso. eapply bcmp_lt_irrefl; eauto.
+           ++ apply N.ltb_ge in E. rewrite E. reflexivity.
+        -- destruct (first_key k r) as [c|] eqn:F; [|reflexivity].
+           assert (Hc : In c r /\ mk c = k).
+           { clear -F. induction r as [|y r IH]; [discriminate|]. cbn [first_key] in F.
+             destruct (beq (mk y) k) eqn:By.
+             - injection F as ->. apply beq_true_iff in By. split; [left; reflexivity|exact By].
+             - destruct (IH F) as [H1 H2]. split; [right; exact H1|exact H2]. }
+           destruct Hc as [Hin Kc].
+           assert (Hxc : ele x c) by (rewrite Forall_forall in Hf; apply Hf; exact Hin).
+           assert (Hec : ele e c) by (eapply ele_trans; [exact E|exact Hxc]).
+           apply ele_iff in Hec. destruct Hec as [Hec|[_ Hec]].
+           ++ rewrite Be, Kc in Hec. exfalso. eapply bcmp_lt_irrefl; eauto.
+           ++ apply N.ltb_ge in Hec. rewrite Hec. reflexivity.
+  - intros _. induction l as [|x r IH].
+    + cbn [insert first_key]. rewrite Be. reflexivity.
+    + cbn [insert]. destruct (elt x e); cbn [first_key].
+      * rewrite IH. reflexivity.
+      * rewrite Be. reflexivity.
+Qed.
+
+Lemma build_from_snoc : forall l0 es e, build_from l0 (es ++ [e]) = insert e (build_from l0 es).
+Proof. intros l0 es e. unfold build_from. rewrite fold_left_app. reflexivity. Qed.
+
+Lemma build_snoc : forall es e, build (es ++ [e]) = insert e (build es).
+Proof. intros es e. apply build_from_snoc. Qed.
+
+Lemma build_from_sorted : forall es l0, sorted l0 -> sorted (build_from l0 es).
+Proof.
+  intros es. induction es as [|e es IH]; intros l0 Hs; [exact Hs|].
+  cbn [build_from fold_left]. apply IH. apply insert_sorted. exact Hs.
+Qed.
+
+Lemma build_sorted : forall es, sorted (build es).
+Proof. intros es. apply build_from_sorted. constructor. Qed.
+
+Lemma first_key_build : forall k es, first_key k (build es) = latest_version k es.
+Proof.
+  intros k es. induction es as [|e es IH] using rev_ind; [reflexivity|].
+  rewrite build_snoc, latest_version_snoc, first_key_insert by apply build_sorted.
+  rewrite IH. reflexivity.
+Qed.
+
+(* the key lemma (also needed by EngineProofs.v) *)
+Theorem find_build : forall es k, find k (build es) = latest_version k es.
+Proof.
+  intros es k. rewrite find_sorted by apply build_sorted. apply first_key_build.
+Qed.
+
+Definition C18_find := find_build.
+
+(* non-monotone and repeated sequence numbers: key [1] gets 5, 9, 9, 2 — the second 9 wins *)
+Example find_build_ex :
+  let es := [mkM [1] 5 KVal [50]; mkM [2] 7 KVal [70]; mkM [1] 9 KVal [90]; mkM [1] 9 KDel [];
+             mkM [0] 3 KVal [30]; mkM [1] 2 KVal [20]] in
+  find [1] (build es) = Some (mkM [1] 9 KDel []) /\
+  latest_version [1] es = Some (mkM [1] 9 KDel []) /\
+  find [2] (build es) = Some (mkM [2] 7 KVal [70]) /\
+  find [3] (build es) = None /\ latest_version [3] es = None.
+Proof. vm_compute. repeat split. Qed.
+
+(* ------------------------------------------------------------------------------------- *)
+(* A4. iteration order: sorted, a permutation, stable (later insert first on ties)        *)
+(* ------------------------------------------------------------------------------------- *)
+
+(* the textbook stable insertion sort: x goes before the first y with not (y < x) *)
+Definition isort (l : list mentry) : list mentry := fold_right insert [] l.
+
+Lemma build_isort : forall es, build es = isort (rev es).
+Proof.
+  intros es. unfold build, build_from, isort. symmetry.
+  exact (fold_left_rev_right insert es []).
+Qed.
+
+(* x has the same key and sequence number as c *)
+Definition eqv (c x : mentry) : bool := beq (mk x) (mk c) && (mseq x =? mseq c).
+
+Lemma eqv_true_iff : forall c x, eqv c x = true <-> (mk x = mk c /\ mseq x = mseq c).
+Proof.
+  intros c x. unfold eqv. rewrite andb_true_iff, beq_true_iff, N.eqb_eq. reflexivity.
+Qed.
+
+Lemma eqv_refl : forall c, eqv c c = true.
+Proof. intros c. apply eqv_true_iff. split; reflexivity. Qed.
+
+Lemma filter_eqv_insert : forall c e l,
+  filter (eqv c) (insert e l) = if eqv c e then e :: filter (eqv c) l else filter (eqv c) l.
+Proof.
+  intros c e l. induction l as [|x r IH]; cbn [insert].
+  - cbn [filter]. destruct (eqv c e); reflexivity.
+  - destruct (elt x e) eqn:E.
+    + cbn [filter]. rewrite IH. destruct (eqv c x) eqn:X; destruct (eqv c e) eqn:Y; try reflexivity.
+      exfalso. apply eqv_true_iff in X. apply eqv_true_iff in Y.
+      destruct X as [X1 X2]; destruct Y as [Y1 Y2].
+      assert (F : elt x e = false).
+      { apply elt_false_iff. right. split; [congruence|lia]. }
+      congruence.
+    + cbn [filter]. destruct (eqv c e); reflexivity.
+Qed.
+
+Lemma filter_eqv_build_from : forall c es l0,
+  filter (eqv c) (build_from l0 es) = rev (filter (eqv c) es) ++ filter (eqv c) l0.
+Proof.
+  intros c es. induction es as [|e es IH]; intros l0; [reflexivity|].
+  change (build_from l0 (e :: es)) with (build_from (insert e l0) es).
+  rewrite IH, filter_eqv_insert. cbn [filter]. destruct (eqv c e); [|reflexivity].
+  cbn [rev]. rewrite <- app_assoc. reflexivity.
+Qed.
+
+Lemma build_from_perm : forall es l0, Permutation (build_from l0 es) (es ++ l0).
+Proof.
+  intros es. induction es as [|e es IH]; intros l0; [apply Permutation_refl|].
+  change (build_from l0 (e :: es)) with (build_from (insert e l0) es).
+  eapply perm_trans; [apply IH|].
+  eapply perm_trans; [apply Permutation_app_head; apply insert_perm|].
+  apply Permutation_sym. apply Permutation_middle.
+Qed.
+
+Lemma build_perm : forall es, Permutation (build es) es.
+Proof.
+  intros es. pose proof (build_from_perm es []) as H. rewrite app_nil_r in H. exact H.
+Qed.
+
+Lemma build_in : forall es x, In x (build es) <-> In x es.
+Proof.
+  intros es x. split; apply Permutation_in; [|apply Permutation_sym]; apply build_perm.
+Qed.
+
+(* a sorted list is determined by its classes of equal (key, seq) in order *)
+Theorem sorted_stable_unique : forall l1 l2,
+  sorted l1 -> sorted l2 ->
+  (forall c, filter (eqv c) l1 = filter (eqv c) l2) -> l1 = l2.
+Proof.
+  induction l1 as [|a r1 IH]; intros [|b r2] S1 S2 H.
+  - reflexivity.
+  - specialize (H b). cbn [filter] in H. rewrite eqv_refl in H. discriminate.
+  - specialize (H a). cbn [filter] in H. rewrite eqv_refl in H. discriminate.
+  - apply sorted_cons_inv in S1. destruct S1 as [S1 F1].
+    apply sorted_cons_inv in S2. destruct S2 as [S2 F2].
+    assert (Hba : ele b a).
+    { pose proof (H a) as Ha. cbn [filter] in Ha. rewrite eqv_refl in Ha.
+      assert (I : In a (b :: filter (eqv a) r2)).
+      { destruct (eqv a b); [rewrite <- Ha; left; reflexivity|right; rewrite <- Ha; left; reflexivity]. }
+      destruct I as [I|I]; [subst; apply ele_refl|].
+      apply filter_In in I. rewrite Forall_forall in F2. apply F2. apply I. }
+    assert (Hab : ele a b).
+    { pose proof (H b) as Hb. cbn [filter] in Hb. rewrite eqv_refl in Hb.
+      assert (I : In b (a :: filter (eqv b) r1)).
+      { destruct (eqv b a); [rewrite Hb; left; reflexivity|right; rewrite Hb; left; reflexivity]. }
+      destruct I as [I|I]; [subst; apply ele_refl|].
+      apply filter_In in I. rewrite Forall_forall in F1. apply F1. apply I. }
+    assert (E : a = b).
+    { destruct (ele_antisym a b Hab Hba) as [K Sq].
+      pose proof (H a) as Ha. cbn [filter] in Ha. rewrite eqv_refl in Ha.
+      assert (X : eqv a b = true) by (apply eqv_true_iff; split; congruence).
+      rewrite X in Ha. congruence. }
+    subst b. f_equal. apply IH; [exact S1|exact S2|].
+    intros c. specialize (H c). cbn [filter] in H. destruct (eqv c a); congruence.
+Qed.
+
+Theorem C18_iter : forall es,
+  sorted (build es) /\
+  Permutation (build es) es /\
+  (forall c, filter (eqv c) (build es) = rev (filter (eqv c) es)) /\
+  build es = isort (rev es).
+Proof.
+  intros es. split; [apply build_sorted|]. split; [apply build_perm|]. split; [|apply build_isort].
+  intros c. unfold build. rewrite filter_eqv_build_from. cbn [filter]. apply app_nil_r.
+Qed.
+
+(* the three conditions pin the list down: nothing else is sorted and stable *)
+Theorem C18_iter_unique : forall es l,
+  sorted l -> (forall c, filter (eqv c) l = rev (filter (eqv c) es)) -> l = build es.
+Proof.
+  intros es l Hs Hf. apply sorted_stable_unique; [exact Hs|apply build_sorted|].
+  intros c. rewrite Hf. symmetry. apply C18_iter.
+Qed.
+
+(* reading of `sorted` on adjacent entries: key ascending, within a key newer first *)
+Lemma sorted_adjacent : forall l1 x y l2, sorted (l1 ++ x :: y :: l2) ->
+  bcmp (mk x) (mk y) = Lt \/ (mk x = mk y /\ mseq y <= mseq x).
+Proof.
+  intros l1 x y l2 H. apply ele_iff. induction l1 as [|a l1 IH].
+  - cbn [app] in H. inversion H as [|? ? _ Hh]; subst. inversion Hh; assumption.
+  - apply IH. cbn [app] in H. inversion H; assumption.
+Qed.
+
+Example C18_iter_ex :
+  build [mkM [2] 7 KVal [1]; mkM [1] 4 KVal [9]; mkM [2] 9 KVal [2]; mkM [2] 7 KDel []; mkM [1] 4 KVal [8]]
+  = [mkM [1] 4 KVal [8]; mkM [1] 4 KVal [9]; mkM [2] 9 KVal [2]; mkM [2] 7 KDel []; mkM [2] 7 KVal [1]].
+Proof. vm_compute. reflexivity. Qed.
+
+(* ------------------------------------------------------------------------------------- *)
+(* A5/A6. MemTable: Get after any Put/Delete sequence; immutable tables never change      *)
+(* ------------------------------------------------------------------------------------- *)
+
+Inductive mop := OPut (k v : bytes) (s : N) | ODel (k : bytes) (s : N) | OSetImm.
+
+Definition mt_step (m : memtable) (o : mop) : memtable :=
+  match o with
+  | OPut k v s => mt_put m k v s
+  | ODel k s => mt_del m k s
+  | OSetImm => mt_set_imm m
+  end.
+
+Definition mt_run (m : memtable) (ops : list mop) : memtable := fold_left mt_step ops m.
+
+(* the entries that take effect: those before the first SetImmutable *)
+Fixpoint live_entries (ops : list mop) : list mentry :=
+  match ops with
+  | [] => []
+  | OPut k v s :: r => mkM k s KVal v :: live_entries r
+  | ODel k s :: r => mkM k s KDel [] :: live_entries r
+  | OSetImm :: _ => []
+  end.
+
+Definition get_of (o : option mentry) : option (option bytes) :=
+  match o with
+  | None => None
+  | Some e => Some (match mkind e with KDel => None | KVal => Some (mval e) end)
+  end.
+
+Lemma mt_add_imm : forall m e, mt_imm m = true -> mt_add m e = m.
+Proof. intros m e H. unfold mt_add. rewrite H. reflexivity. Qed.
+
+Lemma mt_set_imm_imm : forall m, mt_imm m = true -> mt_set_imm m = m.
+Proof. intros [es sz nx im] H. cbn in H. subst im. reflexivity. Qed.
+
+Lemma mt_step_imm : forall m o, mt_imm m = true -> mt_step m o = m.
+Proof.
+  intros m [k v s|k s|] H; cbn [mt_step]; unfold mt_put, mt_del;
+    [apply mt_add_imm|apply mt_add_imm|apply mt_set_imm_imm]; exact H.
+Qed.
+
+Lemma mt_run_imm : forall ops m, mt_imm m = true -> mt_run m ops = m.
+Proof.
+  induction ops as [|o ops IH]; intros m H; [reflexivity|].
+  cbn [mt_run fold_left]. rewrite mt_step_imm by exact H. apply IH. exact H.
+Qed.
+
+Theorem C18_immutable :
+  (forall m e, mt_imm m = true -> mt_add m e = m) /\
+  (forall m ops, mt_run (mt_set_imm m) ops = mt_set_imm m) /\
+  (forall m ops k, mt_get (mt_run (mt_set_imm m) ops) k = mt_get m k) /\
+  (forall m ops, mt_entries (mt_run (mt_set_imm m) ops) = mt_entries m).
+Proof.
+  assert (R : forall m ops, mt_run (mt_set_imm m) ops = mt_set_imm m)
+    by (intros m ops; apply mt_run_imm; reflexivity).
+  split; [exact mt_add_imm|]. split; [exact R|]. split.
+  - intros m ops k. rewrite R. reflexivity.
+  - intros m ops. rewrite R. reflexivity.
+Qed.
+
+Example C18_immutable_ex :
+  let m := mt_run mt_empty [OPut [1] [10] 1; OSetImm] in
+  mt_run m [OPut [1] [11] 2; ODel [1] 3; OPut [2] [20] 4] = m /\ mt_get m [1] = Some (Some [10]).
+Proof. vm_compute. split; reflexivity. Qed.
+
+Lemma mt_add_mutable : forall m e, mt_imm m = false ->
+  mt_entries (mt_add m e) = insert e (mt_entries m) /\ mt_imm (mt_add m e) = false.
+Proof. intros m e H. unfold mt_add. rewrite H. split; reflexivity. Qed.
+
+Lemma mt_run_entries : forall ops m, mt_imm m = false ->
+  mt_entries (mt_run m ops) = build_from (mt_entries m) (live_entries ops).
+Proof.
+  induction ops as [|o ops IH]; intros m H; [reflexivity|].
+  cbn [mt_run fold_left]. fold (mt_run (mt_step m o) ops).
+  destruct o as [k v s|k s|]; cbn [mt_step live_entries].
+  - unfold mt_put. destruct (mt_add_mutable m (mkM k s KVal v) H) as [E I].
+    rewrite IH by exact I. rewrite E. reflexivity.
+  - unfold mt_del. destruct (mt_add_mutable m (mkM k s KDel []) H) as [E I].
+    rewrite IH by exact I. rewrite E. reflexivity.
+  - rewrite mt_run_imm by reflexivity. reflexivity.
+Qed.
+
+Lemma mt_run_empty_entries : forall ops,
+  mt_entries (mt_run mt_empty ops) = build (live_entries ops).
+Proof. intros ops. apply (mt_run_entries ops mt_empty). reflexivity. Qed.
+
+Theorem C18_get : forall ops k,
+  mt_get (mt_run mt_empty ops) k = get_of (latest_version k (live_entries ops)).
+Proof.
+  intros ops k. unfold mt_get. rewrite mt_run_empty_entries, find_build. reflexivity.
+Qed.
+
+(* the three outcomes spelled out *)
+Corollary C18_get_cases : forall ops k,
+  match latest_version k (live_entries ops) with
+  | None => mt_get (mt_run mt_empty ops) k = None
+  | Some e => match mkind e with
+              | KVal => mt_get (mt_run mt_empty ops) k = Some (Some (mval e))
+              | KDel => mt_get (mt_run mt_empty ops) k = Some None
+              end
+  end.
+Proof.
+  intros ops k. rewrite C18_get. destruct (latest_version k (live_entries ops)) as [e|]; [|reflexivity].
+  cbn [get_of]. destruct (mkind e); reflexivity.
+Qed.
+
+Example C18_get_ex :
+  let ops := [OPut [1] [10] 5; OPut [2] [20] 6; ODel [1] 9; OPut [1] [11] 7; OPut [3] [30] 2;
+              ODel [3] 2; OPut [4] [40] 3; OPut [4] [] 3] in
+  mt_get (mt_run mt_empty ops) [1] = Some None /\
+  mt_get (mt_run mt_empty ops) [2] = Some (Some [20]) /\
+  mt_get (mt_run mt_empty ops) [3] = Some None /\
+  mt_get (mt_run mt_empty ops) [4] = Some (Some []) /\
+  mt_get (mt_run mt_empty ops) [5] = None.
+Proof. vm_compute. repeat split. Qed.
+
+(* ------------------------------------------------------------------------------------- *)
+(* A7. iterator: the snapshot of a table's own iterator hides nothing; Seek               *)
+(* ------------------------------------------------------------------------------------- *)
+
+Definition seq_inv (m : memtable) : Prop :=
+  Forall (fun e => mseq e <= mt_next m) (mt_entries m).
+
+(* nextSeqNum is a uint64 and seqNum+1 wraps at 2^64-1; the WAL never hands out that number *)
+Definition seq_ok (e : mentry) : Prop := mseq e < 2^64 - 1.
+
+Lemma mt_add_seq_inv : forall m e, seq_ok e -> seq_inv m -> seq_inv (mt_add m e).
+Proof.
+  intros m e B H. unfold mt_add. destruct (mt_imm m); [exact H|].
+  unfold seq_inv, seq_ok in *. cbn [mt_entries mt_next]. rewrite Forall_forall in *.
+  assert (W : (mseq e + 1) mod 2^64 = mseq e + 1).
+  { apply N.mod_small. change (2^64) with 18446744073709551616 in *. lia. }
+  intros x Hx. apply insert_in in Hx.
+  destruct (mt_next m <? mseq e) eqn:L.
+  - rewrite W. apply N.ltb_lt in L. destruct Hx as [->|Hx]; [lia|]. specialize (H x Hx). lia.
+  - apply N.ltb_ge in L. destruct Hx as [->|Hx]; [exact L|]. exact (H x Hx).
+Qed.
+
+Lemma mt_run_seq_inv : forall ops m,
+  Forall seq_ok (live_entries ops) -> seq_inv m -> seq_inv (mt_run m ops).
+Proof.
+  induction ops as [|o ops IH]; intros m B H; [exact H|].
+  cbn [mt_run fold_left]. fold (mt_run (mt_step m o) ops).
+  destruct o as [k v s|k s|]; cbn [mt_step live_entries] in *.
+  - inversion B as [|? ? B1 B2]; subst. apply IH; [exact B2|].
+    unfold mt_put. apply mt_add_seq_inv; assumption.
+  - inversion B as [|? ? B1 B2]; subst. apply IH; [exact B2|].
+    unfold mt_del. apply mt_add_seq_inv; assumption.
+  - rewrite mt_run_imm by reflexivity. exact H.
+Qed.
+
+Lemma filter_all : forall (A : Type) (p : A -> bool) l,
+  (forall x, In x l -> p x = true) -> filter p l = l.
+Proof.
+  intros A p l. induction l as [|x r IH]; intros H; [reflexivity|].
+  cbn [filter]. rewrite (H x (or_introl eq_refl)). f_equal. apply IH.
+  intros y Hy. apply H. right. exact Hy.
+Qed.
+
+Lemma iter_all : forall m, seq_inv m -> mt_iter_entries m = mt_entries m.
+Proof.
+  intros m H. unfold mt_iter_entries. apply filter_all. intros x Hx.
+  unfold seq_inv in H. rewrite Forall_forall in H. specialize (H x Hx).
+  unfold visible, mt_snapshot. destruct (mt_imm m); [reflexivity|].
+  apply orb_true_iff. right. apply N.leb_le. exact H.
+Qed.
+
+Theorem C18_iter_mt : forall ops,
+  Forall seq_ok (live_entries ops) ->
+  mt_iter_entries (mt_run mt_empty ops) = build (live_entries ops).
+Proof.
+  intros ops B. rewrite iter_all; [apply mt_run_empty_entries|].
+  apply mt_run_seq_inv; [exact B|constructor].
+Qed.
+
+(* an immutable table is never filtered, whatever the numbers were *)
+Theorem C18_iter_imm : forall ops m,
+  mt_iter_entries (mt_run (mt_set_imm m) ops) = mt_entries m.
+Proof.
+  intros ops m. rewrite mt_run_imm by reflexivity.
+  unfold mt_iter_entries, mt_snapshot. cbn [mt_set_imm mt_imm mt_entries].
+  apply filter_all. intros x _. reflexivity.
+Qed.
+
+(* without the guard the statement is false: 2^64-1 wraps nextSeqNum to 0, the next insert
+   sets it to a small number and the mutable table's iterator hides the two big entries *)
+Example C18_iter_wrap_refuted :
+  let ops := [OPut [1] [10] (2^63); OPut [2] [20] (2^64 - 1); OPut [3] [30] 5] in
+  mt_iter_entries (mt_run mt_empty ops) = [mkM [3] 5 KVal [30]] /\
+  mt_entries (mt_run mt_empty ops) =
+    [mkM [1] (2^63) KVal [10]; mkM [2] (2^64 - 1) KVal [20]; mkM [3] 5 KVal [30]] /\
+  mt_next (mt_run mt_empty ops) = 6 /\
+  mt_iter_entries (mt_run mt_empty ops) <> build (live_entries ops).
+Proof. vm_compute. repeat split. discriminate. Qed.
+
+Example C18_iter_mt_ex :
+  mt_iter_entries (mt_run mt_empty [OPut [2] [20] 6; OPut [1] [10] 6; ODel [2] 8; OPut [2] [21] 8; OPut [0] [] 0])
+  = [mkM [0] 0 KVal []; mkM [1] 6 KVal [10]; mkM [2] 8 KVal [21]; mkM [2] 8 KDel []; mkM [2] 6 KVal [20]].
+Proof. vm_compute. reflexivity. Qed.
+
+(* Seek: the suffix starting at the first entry with key >= t *)
+Theorem seek_ge_split : forall t l, exists pre,
+  l = pre ++ seek_ge t l /\ Forall (fun x => blt (mk x) t = true) pre /\
+  match seek_ge t l with [] => True | x :: _ => blt (mk x) t = false end.
+Proof.
+  intros t l. induction l as [|x r IH].
+  - exists []. cbn. auto.
+  - cbn [seek_ge]. destruct (blt (mk x) t) eqn:B.
+    + destruct IH as (pre & E & F & M). exists (x :: pre). split; [cbn [app]; f_equal; exact E|].
+      split; [constructor; assumption|exact M].
+    + exists []. split; [reflexivity|]. split; [constructor|exact B].
+Qed.
+
+Lemma key_ge_mono : forall t x y, blt (mk x) t = false -> ele x y -> blt (mk y) t = false.
+Proof.
+  intros t x y B H. apply blt_false_iff in B. apply blt_false_iff. apply ele_iff in H.
+  destruct B as [B|B]; destruct H as [H|[H _]].
+  - right. rewrite <- B. exact H.
+  - left. congruence.
+  - right. eapply bcmp_lt_trans; eauto.
+  - right. rewrite <- H. exact B.
+Qed.
+
+Theorem seek_ge_sorted : forall t l, sorted l ->
+  Forall (fun x => blt (mk x) t = false) (seek_ge t l).
+Proof.
+  intros t l. induction l as [|x r IH]; intros Hs; [constructor|].
+  cbn [seek_ge]. destruct (blt (mk x) t) eqn:B.
+  - apply IH. apply sorted_cons_inv in Hs. apply Hs.
+  - apply sorted_cons_inv in Hs. destruct Hs as [_ Hf]. constructor; [exact B|].
+    rewrite Forall_forall in *. intros y Hy. eapply key_ge_mono; [exact B|]. apply Hf. exact Hy.
+Qed.
+
+(* equivalently: on a sorted list Seek returns exactly the entries with key >= t *)
+Theorem seek_ge_filter : forall t l, sorted l ->
+  seek_ge t l = filter (fun x => negb (blt (mk x) t)) l.
+Proof.
+  intros t l. induction l as [|x r IH]; intros Hs; [reflexivity|].
+  pose proof (seek_ge_sorted t (x :: r) Hs) as Hf.
+  cbn [seek_ge filter] in *. destruct (blt (mk x) t) eqn:B; cbn [negb].
+  - apply IH. apply sorted_cons_inv in Hs. apply Hs.
+  - f_equal. symmetry. apply filter_all. intros y Hy.
+    inversion Hf as [|? ? _ Hr]; subst. rewrite Forall_forall in Hr. rewrite (Hr y Hy). reflexivity.
+Qed.
+
+Lemma filter_sorted : forall p l, sorted l -> sorted (filter p l).
+Proof.
+  intros p l Hs. apply sorted_strong in Hs. apply sorted_strong.
+  induction Hs as [|x r Hs IH Hf]; cbn [filter]; [constructor|].
+  destruct (p x); [|exact IH]. constructor; [exact IH|].
+  rewrite Forall_forall in *. intros y Hy. apply filter_In in Hy. apply Hf. apply Hy.
+Qed.
+
+Lemma filter_filter_comm : forall (A : Type) (p q : A -> bool) l,
+  filter p (filter q l) = filter q (filter p l).
+Proof.
+  intros A p q l. induction l as [|x r IH]; [reflexivity|].
+  cbn [filter]. destruct (p x) eqn:P; destruct (q x) eqn:Q; cbn [filter];
+    rewrite ?P, ?Q, IH; reflexivity.
+Qed.
+
+(* Iterator.Seek positions in the unfiltered chain and then skips invisible nodes; on a
+   sorted chain that is the same as seeking in the filtered sequence *)
+Theorem seek_ge_visible : forall t p l, sorted l ->
+  seek_ge t (filter p l) = filter p (seek_ge t l).
+Proof.
+  intros t p l Hs. rewrite seek_ge_filter by (apply filter_sorted; exact Hs).
+  rewrite seek_ge_filter by exact Hs. apply filter_filter_comm.
+Qed.
+
+Theorem C18_seek : forall ops t,
+  Forall seq_ok (live_entries ops) ->
+  let l := mt_iter_entries (mt_run mt_empty ops) in
+  exists pre, l = pre ++ seek_ge t l /\
+    Forall (fun x => blt (mk x) t = true) pre /\
+    Forall (fun x => blt (mk x) t = false) (seek_ge t l).
+Proof.
+  intros ops t B l. destruct (seek_ge_split t l) as (pre & E & F & _).
+  exists pre. split; [exact E|]. split; [exact F|].
+  apply seek_ge_sorted. unfold l. rewrite C18_iter_mt by exact B. apply build_sorted.
+Qed.
+
+Example C18_seek_ex :
+  seek_ge [2] (mt_iter_entries (mt_run mt_empty [OPut [3] [30] 1; OPut [1] [10] 2; OPut [2;0] [20] 3; OPut [1;9] [] 4]))
+  = [mkM [2;0] 3 KVal [20]; mkM [3] 1 KVal [30]].
+Proof. vm_compute. reflexivity. Qed.
